@@ -157,7 +157,7 @@ def exRootSlice : Node := .slice { typn := "RS" } (.basic { typn := "int", typu 
 /-- Known finding `nil-root-panics`: Loop of the current tree on a typed-nil root slice panics
 (`range *x` with `x == nil`); the repaired emitter returns (`loop_nil_root`). -/
 theorem repo_nil_root_panics :
-    (loopM GenCfg.repo exScriptAll exFt exRootSlice .nilPtr (.slice true [] 0) []).fin = .panic := by
+    (loopM GenCfg.original exScriptAll exFt exRootSlice .nilPtr (.slice true [] 0) []).fin = .panic := by
   decide
 
 /-- `type NK struct { N map[*string]int }` holding `{nil: 1, &"k": 2}`. -/
